@@ -221,6 +221,8 @@ def cli_cwd(root, st, aux):
     """the working directory of a command step (None: wherever the harness runs)"""
     if st.get("rel_dest"):
         return aux
+    if st.get("op") == "infosf" and st.get("sf_rel"):
+        return os.path.dirname(os.path.join(root, st["file"]))       # the file is named relative to the working directory
     if st.get("spell") in ("rel", "dotrel"):
         return os.path.dirname(root)
     if st.get("spell") == "dot":
@@ -315,7 +317,7 @@ def _cli_args(root, st, aux):
         gens = impl.list_manifests(hr)
         return "xsd_schema_check", ([os.path.join(hr, "ascmhl", gens[-1][1])] if gens else [os.path.join(hr, "nothing.mhl")]) + ["-xsd", os.path.join(core.REPO, "xsd", "ASCMHL.xsd")]
     if op == "infosf":
-        a = ["-sf", os.path.join(root, st["file"])]
+        a = ["-sf", os.path.basename(st["file"]) if st.get("sf_rel") else os.path.join(root, st["file"])]
         if st.get("root") is not None:
             a.append(r)
         return "info", a
